@@ -7,7 +7,7 @@ CONSTANTS
   MaxStart = 1
   ParentCancels = TRUE
   Presents = {{"start","run","stop"}}
-  RunMode = "any"
+  RunModes = {"any"}
   GuardNilCancel = TRUE
 INIT Init
 NEXT Next
